@@ -243,6 +243,10 @@ class Decoder(Coder):
         :param reuse: Is this bitmap for reuse?
         :return: The bitmap as a list of 0 and 1.
         """
+        if state.n_031031 == 0:
+            # The bits stand under a replication that was not executed: no bitmap is defined
+            return []
+
         # First get all the bit values for the bitmap
         if state.is_compressed:
             bitmap = state.decoded_values_all_subsets[0][-state.n_031031:]
